@@ -204,6 +204,59 @@ func purity(w *chain.World, b types.Block, bs consensus.V1BlockSupplement, txFau
 	if revertDigest(ru1) != revertDigest(ru2) {
 		return "revert-not-repeatable", "second RevertBlock call produced different contents"
 	}
+	// an element refreshed through UpdateElementProof must not share memory with the update it was refreshed from (a
+	// subscriber keeps both): refresh a copy of every tracked element, scribble over the refreshed proof, and require
+	// the update - and the revert update - to be unchanged
+	{
+		dA, dR := chain.UpdateDigest(au1), revertDigest(ru1)
+		scribble := func(se *types.StateElement, upd func(*types.StateElement)) {
+			vf.Try(func() {
+				upd(se)
+				for i := range se.MerkleProof {
+					se.MerkleProof[i][2] ^= 0xFF
+				}
+			})
+		}
+		for _, e := range w.Store.SC {
+			ec := e.Copy()
+			scribble(&ec.StateElement, au1.UpdateElementProof)
+		}
+		for _, e := range w.Store.SF {
+			ec := e.Copy()
+			scribble(&ec.StateElement, au1.UpdateElementProof)
+		}
+		for _, e := range w.Store.FC {
+			ec := e.Copy()
+			scribble(&ec.StateElement, au1.UpdateElementProof)
+		}
+		for _, e := range w.Store.V2FC {
+			ec := e.Copy()
+			scribble(&ec.StateElement, au1.UpdateElementProof)
+		}
+		if chain.UpdateDigest(au1) != dA {
+			return "update-aliased-by-refreshed-element|apply", "scribbling over the proof of an element that was refreshed with ApplyUpdate.UpdateElementProof changed the ApplyUpdate itself (shared memory)"
+		}
+		// the same on the revert side, with the elements as the block left them
+		for _, d := range au1.SiacoinElementDiffs() {
+			ec := d.SiacoinElement.Copy()
+			scribble(&ec.StateElement, ru1.UpdateElementProof)
+		}
+		for _, d := range au1.SiafundElementDiffs() {
+			ec := d.SiafundElement.Copy()
+			scribble(&ec.StateElement, ru1.UpdateElementProof)
+		}
+		for _, d := range au1.FileContractElementDiffs() {
+			ec := d.FileContractElement.Copy()
+			scribble(&ec.StateElement, ru1.UpdateElementProof)
+		}
+		for _, d := range au1.V2FileContractElementDiffs() {
+			ec := d.V2FileContractElement.Copy()
+			scribble(&ec.StateElement, ru1.UpdateElementProof)
+		}
+		if revertDigest(ru1) != dR {
+			return "update-aliased-by-refreshed-element|revert", "scribbling over the proof of an element that was refreshed with RevertUpdate.UpdateElementProof changed the RevertUpdate itself (shared memory)"
+		}
+	}
 	// updates must not alias caller memory: scribbling over the update's proofs must not move the input digest
 	for _, d := range au1.SiacoinElementDiffs() {
 		for i := range d.SiacoinElement.StateElement.MerkleProof {
